@@ -349,7 +349,7 @@ def same(real_obj, model_ast, ctx: Ctx) -> bool:
     return canon(rebuilt, ctx) == canon(real_obj, ctx)
 
 
-def equal_mod_ring(a, b, ctx: Ctx) -> bool:
+def equal_mod_ring(a, b, ctx: Ctx, three_valued: bool = False):
     """`a == b` up to SymPy's automatic arithmetic canonicalisation (which is not confluent:
     `Mul(-2, x, y)` with `x` replaced by a sum is not what `-2*x*y` builds from scratch) and up to
     renaming of dummies: compared after `expand`."""
@@ -366,7 +366,10 @@ def equal_mod_ring(a, b, ctx: Ctx) -> bool:
             return True
     except Exception:  # noqa: BLE001, S110
         pass
-    return numerically_equal(a, b) is True
+    verdict = numerically_equal(a, b)
+    if three_valued:
+        return verdict  # True / False / None (not decidable numerically: array-valued, symbolic limits, too deep)
+    return verdict is True
 
 
 def numerically_equal(a, b, n_points: int = 3):
